@@ -34,9 +34,9 @@ CHECKS = {
     "C03": ("proof: Lean theorems on the M-machine (a line-by-line model of MonteCarlo.step, the moves, contexts and ensemble save/revert): fail_restores, reject_restores (canonical, Hamiltonian, isobaric/isotension, grand canonical; bare moves, CompositeDisplacementMove, plain composites), reject_restores_exchange and reject_restores_composite_insertion/deletion (ExchangeMove and CompositeExchangeMove incl. FixAtoms), inv_trial, history_restores at every position of any history; known finding proved as plain_two_deletions_not_restored; tied to the code by scripted histories on the real drivers with snapshots after every trial",
             "§6 C03", "Lean 4 invariant proofs over a state-machine model + differential correspondence (snapshot after every trial) + before/after oracle on the real code",
             "integer-valued positions/momenta/cells; ASE extend/__delitem__/set_positions/set_cell/FixAtoms semantics as modelled; plain composites with exchange members are not covered by theorems (known finding); composite deletion is proved for members sharing one labelling"),
-    "C05": ("proof: Lean theorems on the M-machine: labels_aligned_after_accept (every label-bearing move reachable from the table, any composite, repeated objects), inserted_particle_one_label, auto_label_fresh, default_label_honoured (0 and negatives), nexch_counter, template untouched, not_accepted_keeps_labels; known finding proved as composite_insertion_shares_label; tied to the code by scripted grand-canonical histories on the real driver",
+    "C05": ("proof: Lean theorems on the M-machine: labels_aligned_after_accept (every label-bearing move reachable from the table, any composite, repeated objects), inserted_particle_one_label, auto_label_fresh, default_label_honoured (0 and negatives), nexch_counter, template untouched, not_accepted_keeps_labels, ginv_trial and gc_history (after ANY history of accepted/rejected/failed insertions and deletions: labels aligned, constraint indices valid, counter = initial + insertions - deletions); known finding proved as composite_insertion_shares_label; tied to the code by scripted grand-canonical histories on the real driver",
             "§6 C05", "Lean 4 theorems on the notification/label model + differential correspondence + bookkeeping oracle fed by a bare user move that receives the documented notifications",
-            "single ExchangeMove per accepted trial in the alignment theorem (composite exchange is covered by correspondence only); members of a composite share one labelling"),
+            "histories are over single ExchangeMove trials (composite exchange and displacement trials in between are covered by correspondence only); members of a composite share one labelling"),
     "C11": ("proof: Lean theorems on the M-machine for DisplacementMove.__call__/attempt_displacement and CompositeDisplacementMove.__call__: disp_changes_only_selected, negative_never_moved, disp_no_candidate_fails, disp_fixed_stays, composite_no_repeat, composite_reports_count, composite_count, for all label arrays, scripts and retry budgets; tied to the code by scripted accepted/failed displacement trials on the real moves",
             "§6 C11", "Lean 4 theorems by case analysis/induction on the move model + differential correspondence + row-wise oracle on real arrays",
             "composite_count is stated for members sharing one labelling (what move * n produces); heterogeneous labelings are not covered"),
